@@ -68,6 +68,34 @@ func HarnessSnapshotCrash() {
 	vCover(!crashed, "completed command reachable")
 }
 
+// HarnessSnapshotFirstSave: the very first snapshot of a proxy that has no state file yet, with the process killed at
+// an arbitrary step of it: afterwards there is either no state file (the next start begins empty, as before the
+// command) or a complete one - never an empty or truncated file.
+func HarnessSnapshotFirstSave() {
+	vSortMode = 0
+	vSnapshotReal = true
+	topts := TargetOptions{HealthCheckConfig: HealthCheckConfig{Path: "/up", Interval: 1000, Timeout: 1000}}
+	orig := NewRouter("/state")
+	svc, err := NewService("svc", ServiceOptions{Hosts: []string{"h"}}, topts)
+	vAssert(err == nil, "snapshot: service builds")
+	svc.active = vDeployedBalancer([]string{"a0:80"}, topts)
+	vAssert(vStateFile() == nil, "snapshot: no state file before the first command")
+	vCrashAfter = vChoose("crash_point", vParam("crash_points", 8)) - 1
+	vFSOps = 0
+	crashed := vCallRecovering(func() { vInstall(orig, svc) })
+	vCrashAfter = -1
+	onDisk := vStateFile()
+	if onDisk != nil {
+		next := NewRouter("/state")
+		vAssert(next.RestoreLastSavedState() == nil && next.services.Get("svc") != nil, "snapshot: a state file left by the first save, killed at any instant, is complete")
+	}
+	if !crashed {
+		vAssert(onDisk != nil, "snapshot: once the first command has returned the state file exists")
+	}
+	vCover(crashed, "crash during the first save reachable")
+	vCover(!crashed, "completed first save reachable")
+}
+
 // HarnessSnapshotIOError: one state-changing command during which one step of the snapshot write reports an error
 // (temporary file cannot be created, the disk fills up part-way through the write, close fails, rename fails): the
 // process keeps running, and the state file must still be one complete snapshot - the previous one.
